@@ -17,8 +17,16 @@ from . import oracles_eval as oe
 
 def run(tier, seed):
     rng = random.Random(seed)
-    T = Tally()
+    T = Tally(max_fail=8)
     quick = tier == 'quick'
+
+    # ---- directed cases first: one per public entry point (definedness with the installed versions)
+    g = oe.GRIDS['2x2x2']
+    pair = {'grid': g, 'rates_a': [[0.1, 0.2]] * 4, 'rates_b': [[0.2, 0.1]] * 4, 'events': [[0, 0], [1, 1]]}
+    T.run('paired_t_test_public', dict(pair), key='d1')
+    T.run('w_test_public', dict(pair), key='d2')
+    T.run('binary_paired_t_test_public', dict(pair), key='d3')
+    T.run('w_test_ndarray', {'x': [0.5, -0.25, 0.75], 'm': 0.0}, key='d4')
 
     # ---- T-test on arrays
     letters = [0.1, 0.5, 2.0]
@@ -30,7 +38,7 @@ def run(tier, seed):
                     T.run('t_test_ndarray', {'rates1': list(r1), 'rates2': list(r2), 'n_f1': 3.0, 'n_f2': 4.5, 'alpha': alpha},
                           key=('t', r1, r2, alpha))
             T.run('t_test_ndarray', {'rates1': list(r1), 'rates2': list(r1), 'n_f1': 2.25, 'n_f2': 2.25}, key=('tid', r1))
-    for _ in range(60 if quick else 1500):
+    for _ in range(60 if quick else 6000):
         n = rng.choice([2, 3, 5, 10, 50, 200])
         r1 = [10 ** rng.uniform(-9, 2) for _ in range(n)]
         r2 = [10 ** rng.uniform(-9, 2) for _ in range(n)]
@@ -50,7 +58,7 @@ def run(tier, seed):
     for x, m in [([0.5, 0.5, 0.5], 0.5), ([0.5, 1.5], 0.5), ([0.1] * 12, 0.0), (list(range(-6, 7)), 0.0),
                  ([0.3, -0.3, 0.3, -0.3, 0.7], 0.0), ([1.0, 2.0, 3.0, 4.0, 5.0, 6.0, 7.0, 8.0, 9.0, 10.0, 11.0], 5.5)]:
         T.run('w_test_ndarray', {'x': x, 'm': m}, key=('wd', tuple(x), m))
-    for _ in range(40 if quick else 1000):
+    for _ in range(40 if quick else 6000):
         n = rng.choice([2, 5, 10, 11, 30, 100])
         pool = [round(rng.uniform(-3, 3), 1) for _ in range(rng.randint(2, 8))]
         x = [rng.choice(pool) if rng.random() < 0.6 else rng.uniform(-3, 3) for _ in range(n)]
